@@ -33,8 +33,8 @@ ASSUMPTIONS = [
     "unordered mode: results of a batch are delivered together, batches in completion (callback) order",
 ]
 SHARDS = {"quick": 12, "thorough": 14}
-FLOORS = {"quick": {"promptness_checks": 3000, "calls": 600, "closes": 100, "drops": 60, "overlapping_calls_rejected": 60, "real_promptness_checks": 60, "completions_during_abort": 100, "second_calls_while_first_generator_holds_results": 50},
-          "thorough": {"promptness_checks": 60000, "calls": 12000, "closes": 2000, "drops": 1200, "overlapping_calls_rejected": 1200, "real_promptness_checks": 900, "completions_during_abort": 2000, "second_calls_while_first_generator_holds_results": 1000}}
+FLOORS = {"quick": {"promptness_checks": 3000, "calls": 600, "closes": 100, "drops": 60, "overlapping_calls_rejected": 60, "real_promptness_checks": 60, "completions_during_abort": 100, "second_calls_while_first_generator_holds_results": 50, "runs_completed_after_a_refused_call": 30},
+          "thorough": {"promptness_checks": 60000, "calls": 12000, "closes": 2000, "drops": 1200, "overlapping_calls_rejected": 1200, "real_promptness_checks": 900, "completions_during_abort": 2000, "second_calls_while_first_generator_holds_results": 1000, "runs_completed_after_a_refused_call": 600}}
 
 DUE_WAIT = 5.0
 
@@ -259,67 +259,71 @@ def run_scripted(case, ctx):
             return ndone > len(delivered), None
 
         first_submit_seq = next((e["seq"] for e in trace.snapshot() if e["k"] == "submit" and e["call"] == be.call_no), len(trace.events))
-        steps = 0
-        while True:
-            steps += 1
-            if steps > 400:
-                ctx.inconclusive("too-many-steps", desc)
-                return False
-            if stop_after is not None and len(delivered) >= stop_after:
-                break
-            is_due, _ = due()
-            if is_due:
-                pl = Puller(g)
-                pl.start()
-                r = pl.get(DUE_WAIT)
-                ctx.count("promptness_checks")
-                if r is None:
-                    pend = be.pending_snapshot()
-                    if pend:
-                        be.complete(pend[-1], thread=True, wait=True)
-                        r2 = pl.get(DUE_WAIT)
-                        if r2 is not None:
-                            ctx.violation("not-prompt:waited-for-later-batch",
-                                          f"result {len(delivered)} was due (its batch and all earlier ones complete: {order}) but next() only "
-                                          f"returned after a later batch was released; {desc}", dict(desc, order=order))
-                        else:
-                            ctx.violation("nontermination:next-blocked", f"a due result was never delivered (completed {order}); {desc}", dict(desc, order=order))
-                    else:
-                        r2 = pl.get(DUE_WAIT)
-                        if r2 is None:
-                            ctx.violation("nontermination:next-blocked", f"a due result was never delivered, nothing pending (completed {order}); {desc}", dict(desc, order=order))
-                        else:
-                            ctx.inconclusive("slow-delivery", desc)
-                    drain(be)
-                    return False
-                if r[0] != "v":
-                    ctx.violation("due-result-not-delivered", f"next() gave {r[0]} {r[1]!r} although result {len(delivered)} was due; {desc}", desc)
-                    drain(be)
-                    return False
-                want = expected_next(mode, tag, delivered, completed)
-                if r[1] != want:
-                    ctx.violation("wrong-order" if mode == "generator" else "not-completion-order",
-                                  f"next() delivered {r[1]} but {want} was promised (completed batches {[f.items for f in completed]}, delivered {delivered}); {desc}",
-                                  dict(desc, order=order))
-                    drain(be)
-                    return False
-                delivered.append(r[1])
-                continue
-            pend = be.pending_snapshot()
-            if not pend:
-                if len(delivered) >= N:
-                    break
-                # nothing pending, nothing due, not finished: wait for dispatch to settle
-                if not be.wait_pending(1, timeout=3.0):
-                    ctx.violation("nontermination:stalled", f"no batch pending, nothing due, {len(delivered)}/{N} delivered; {desc}", desc)
-                    return False
-                continue
-            f = rng.choice(pend)
-            if be.complete(f, thread=True, wait=True) is not True:
-                ctx.inconclusive("callback-stuck", desc)
-                return False
-            completed.append(f)
-            order.append(f.bid)
+        def pump(limit):
+          steps = 0
+          while True:
+              steps += 1
+              if steps > 400:
+                  ctx.inconclusive("too-many-steps", desc)
+                  return False
+              if limit is not None and len(delivered) >= limit:
+                  return True
+              is_due, _ = due()
+              if is_due:
+                  pl = Puller(g)
+                  pl.start()
+                  r = pl.get(DUE_WAIT)
+                  ctx.count("promptness_checks")
+                  if r is None:
+                      pend = be.pending_snapshot()
+                      if pend:
+                          be.complete(pend[-1], thread=True, wait=True)
+                          r2 = pl.get(DUE_WAIT)
+                          if r2 is not None:
+                              ctx.violation("not-prompt:waited-for-later-batch",
+                                            f"result {len(delivered)} was due (its batch and all earlier ones complete: {order}) but next() only "
+                                            f"returned after a later batch was released; {desc}", dict(desc, order=order))
+                          else:
+                              ctx.violation("nontermination:next-blocked", f"a due result was never delivered (completed {order}); {desc}", dict(desc, order=order))
+                      else:
+                          r2 = pl.get(DUE_WAIT)
+                          if r2 is None:
+                              ctx.violation("nontermination:next-blocked", f"a due result was never delivered, nothing pending (completed {order}); {desc}", dict(desc, order=order))
+                          else:
+                              ctx.inconclusive("slow-delivery", desc)
+                      drain(be)
+                      return False
+                  if r[0] != "v":
+                      ctx.violation("due-result-not-delivered", f"next() gave {r[0]} {r[1]!r} although result {len(delivered)} was due; {desc}", desc)
+                      drain(be)
+                      return False
+                  want = expected_next(mode, tag, delivered, completed)
+                  if r[1] != want:
+                      ctx.violation("wrong-order" if mode == "generator" else "not-completion-order",
+                                    f"next() delivered {r[1]} but {want} was promised (completed batches {[f.items for f in completed]}, delivered {delivered}); {desc}",
+                                    dict(desc, order=order))
+                      drain(be)
+                      return False
+                  delivered.append(r[1])
+                  continue
+              pend = be.pending_snapshot()
+              if not pend:
+                  if len(delivered) >= N:
+                      return True
+                  # nothing pending, nothing due, not finished: wait for dispatch to settle
+                  if not be.wait_pending(1, timeout=3.0):
+                      ctx.violation("nontermination:stalled", f"no batch pending, nothing due, {len(delivered)}/{N} delivered; {desc}", desc)
+                      return False
+                  continue
+              f = rng.choice(pend)
+              if be.complete(f, thread=True, wait=True) is not True:
+                  ctx.inconclusive("callback-stuck", desc)
+                  return False
+              completed.append(f)
+              order.append(f.bid)
+
+        if not pump(stop_after):
+            return False
         actions.append((plan, N, stop_after))
         if plan == "exhaust":
             pl = Puller(g)
@@ -350,6 +354,21 @@ def run_scripted(case, ctx):
                     return False
             except RuntimeError:
                 ctx.count("overlapping_calls_rejected")
+                if rng.random() < 0.6:
+                    # the refused call must have left the running one intact: consume it to the end, each result once
+                    if not pump(None):
+                        return False
+                    pl = Puller(g)
+                    pl.start()
+                    r = pl.get(DUE_WAIT)
+                    if r is None or r[0] != "stop" or sorted(delivered) != [(tag, i) for i in range(N)]:
+                        ctx.violation("run-damaged-by-refused-call", f"after a second call was refused with RuntimeError the first run delivered {len(delivered)} of {N} "
+                                                                     f"results (missing {sorted(set((tag, i) for i in range(N)) - set(delivered))[:5]}), then {r}; {desc}", desc)
+                        drain(be)
+                        return False
+                    ctx.count("runs_completed_after_a_refused_call")
+                    ctx.sig((cfg, "overlap-then-exhaust", N, stop_after, order))
+                    return True
             except BaseException as e:  # noqa
                 ctx.violation("overlapping-call-wrong-exception", f"{type(e).__name__}: {e}; {desc}", desc)
             plan2 = "close"
